@@ -9,7 +9,7 @@ grouping node kinds equals the bracket structure, typed accessors agree with sou
 import json, os
 import vlib
 
-UNMASK = ["todo_operand", "p_neg", "p_as_var"]
+UNMASK = ["todo_operand", "p_neg"]
 
 
 SPELL = {}
